@@ -16,6 +16,9 @@ def sweeps(ctx):
         ("l-mid", 52, 400 if q else 8000, ["txs=4..10", "workers=1,2,4", all_]),
         ("l-pct", 53, 400 if q else 8000, ["txs=2..8", "workers=2,3,4", "strat=pct", all_]),
         ("l-faults", 54, 400 if q else 8000, ["txs=2..6", "workers=2,3", "faults=1", all_]),
+        # a user-supplied database that panics inside a worker: the panic must reach the caller, every
+        # thread must finish, and no coordinator may need its stall timer to notice the cancellation
+        ("l-panic", 57, 300 if q else 6000, ["txs=2..6", "workers=2,3", "panics=1", all_]),
         ("l-chain", 55, 200 if q else 3000, ["txs=6..16", "workers=2,3", "opts=shared,ben", "maxsteps=300000"]),
     ]
 
@@ -36,5 +39,6 @@ def run(ctx):
         free, _, _ = sc.run_sweeps(ctx, [("free", 59, 3000, ["txs=8..64", "workers=1,2,4,8,16", "free=1", "opts=invalid,destroy,create,ben,shared"])], want_trace=False)
     # in the faulty sweep a result difference is C04's business, not C05's
     agg["oracle_mismatch"] = [c for c in agg["oracle_mismatch"] if "faults=1" not in " ".join(c.get("opts", []))]
+    # in the panic sweep a "mismatch" means the panic did not reach the caller: that is C05's business
     return C01.finish(ctx, PID, proof, agg, bins, "execute() does not return / needs a stall timer", free, liveness=True,
                       extra_cov=dict(liveness_rule="under the driver park_timeout never expires by itself: a run in which progress needs the timer is a stall; nobody runnable is a deadlock; more than maxsteps hook steps is a suspected livelock"))
